@@ -67,6 +67,16 @@ class GitHubWorld:
         self.log = []
         self.api_calls = 0
         self.api_errors = 0
+        # ---- fault plans ("fail the next n requests of one kind after the j-th event of one kind") ------------
+        self.fault_plans = []              # dicts kind / after / nth / count (+ state armed / seen / left / delivered)
+        self.ev_counts = {}                # world-event name -> how many so far (what fault plans are anchored to)
+        self.planned_faults = {}           # kind -> planned faults delivered
+        # ---- what CI has been TOLD about the target branch: by a successful ref fetch, or by GitHub's answer to a
+        #      merge of its own (the PUT response carries the new target commit) --------------------------------
+        self.told_target = None            # (t, sha, 'fetch' | 'own-merge')
+        self.consumed_targets = {}         # target commit CI has merged a pull request onto (the one it had fetched
+        #                                    and the real one at that instant) -> number of the pull request merged
+        self.ref_failures_after_own_merge = 0   # failed ref fetches while the newest thing CI knows is its own merge
 
     def now(self):
         return round(self.loop.time() - 1_700_000_000.0, 3)
@@ -78,6 +88,35 @@ class GitHubWorld:
     def ev(self, *what):
         if len(self.log) < 5000:
             self.log.append((self.now(),) + what)
+        n = self.ev_counts[what[0]] = self.ev_counts.get(what[0], 0) + 1
+        for p in self.fault_plans:
+            if not p['armed'] and p['after'] is not None and p['after'][0] == what[0] and p['after'][1] == n:
+                p['armed'] = True
+
+    def plan_fault(self, kind, after=None, nth=1, count=1):
+        """fail `count` consecutive requests of `kind` ('ref', 'pulls', 'graphql', 'post-status', 'merge', 'assignees'), starting
+        with the `nth` one issued after the `after[1]`-th world event named `after[0]` ('MERGED', 'target', 'push', ...;
+        None = counted from the start of the history).  Errors are delivered before the request has any effect."""
+        self.fault_plans.append({'kind': kind, 'after': tuple(after) if after else None, 'nth': nth, 'count': count,
+                                 'armed': after is None, 'seen': 0, 'left': count, 'delivered': 0})
+
+    def _planned_fault(self, what):
+        hit = False
+        for p in self.fault_plans:
+            if p['kind'] != what or not p['armed'] or p['left'] <= 0:
+                continue
+            p['seen'] += 1
+            if p['seen'] >= p['nth'] and not hit:
+                p['left'] -= 1
+                p['delivered'] += 1
+                hit = True
+        return hit
+
+    def _note_error(self, what):
+        self.api_errors += 1
+        self.ev('api-error', what)
+        if what == 'ref' and self.told_target is not None and self.told_target[2] == 'own-merge':
+            self.ref_failures_after_own_merge += 1
 
     # ---- world-side mutations (the workload) -------------------------------------------------
     def open_pr(self, author):
@@ -108,9 +147,12 @@ class GitHubWorld:
     async def _call(self, what, can_fail=True):
         self.api_calls += 1
         await asyncio.sleep(self.rng.choice([0.05, 0.1, 0.2, 0.4, 1.5]))
+        if can_fail and self.fault_plans and self._planned_fault(what):
+            self.planned_faults[what] = self.planned_faults.get(what, 0) + 1
+            self._note_error(what)
+            raise self._http_error(self.rng.choice([502, 500, 403, 504]))
         if can_fail and self.rng.random() < self.error_rate:
-            self.api_errors += 1
-            self.ev('api-error', what)
+            self._note_error(what)
             raise self._http_error(self.rng.choice([502, 500, 403, 504]))
 
     def _http_error(self, code, kind=None):
@@ -162,6 +204,7 @@ class FakeGitHubClient:
             raise AssertionError(f'fake github: unexpected GET {url}')
         await w._call('ref')
         w.fetched_ref = (w.now(), w.target_sha)
+        w.told_target = (w.now(), w.target_sha, 'fetch')
         w.merges_since_ref_fetch = 0
         w.ev('fetch-ref', w.target_sha)
         return {'ref': f'refs/heads/{m.group(2)}', 'object': {'sha': w.target_sha, 'type': 'commit'}}
@@ -279,12 +322,17 @@ class FakeGitHubClient:
             'fetched_ref': w.fetched_ref, 'fetched_list': w.fetched_list.get(number), 'fetched_gql': snap, 'known_checks': dict(known),
             'merges_since_ref_fetch': w.merges_since_ref_fetch,
             'failed_own_posts': [p for p in w.failed_posts if p[1] == pr.head],
+            'told_target': w.told_target, 'consumed_targets': dict(w.consumed_targets),
         }
         w.merges.append(rec)
         w.merges_since_ref_fetch += 1
+        w.consumed_targets[w.target_sha] = number
+        if w.fetched_ref is not None:
+            w.consumed_targets.setdefault(w.fetched_ref[1], number)
         pr.open = False
         pr.merged = True
         w.target_sha = w.new_sha('t')
+        w.told_target = (w.now(), w.target_sha, 'own-merge')
         w.ev('MERGED', number, pr.head, w.target_sha)
         return {'merged': True, 'sha': w.target_sha}
 
